@@ -65,14 +65,20 @@ OnDL ==
     /\ (Ev.e = "DL")
     /\ dl' = IF Ev.k = "event" THEN dl \cup {<<Ev.m, Ev.a>>} ELSE dl
     /\ UNCHANGED <<bad, subs, expect, got, ptype, pubBy, lastFrom, dead>>
+OnAState ==
+    /\ (Ev.e = "AState")
+    /\ LET n == Cardinality({x \in subs : x[2] = Ev.a})
+           want == ToString(n) \o "/" \o ToString(n)
+       IN bad' = IF Ev.k # want THEN Flag(IF Ev.s = "gone" THEN "NoEntryAfterTermination" ELSE "TableMatchesSubscriptions") ELSE bad
+    /\ UNCHANGED <<subs, expect, got, ptype, pubBy, lastFrom, dead, dl>>
 OnQEnd ==
     /\ (Ev.e = "QEnd")
     /\ LET missing == {m \in DOMAIN expect : \E a \in expect[m] : a \notin Get(got, m, {}) /\ a \notin dead /\ <<m, a>> \notin dl}
        IN bad' = IF missing # {} THEN Flag("DeliveredToEverySubscriber") ELSE bad
     /\ UNCHANGED <<subs, expect, got, ptype, pubBy, lastFrom, dead, dl>>
 OnReset == Ev.e = "Reset" /\ FreshNext /\ UNCHANGED bad
-OnOther == Ev.e \notin {"Sub", "Unsub", "UnsubAll", "EvKilled", "Pub", "Deliv", "DL", "QEnd", "Reset"} /\ UNCHANGED <<bad, subs, expect, got, ptype, pubBy, lastFrom, dead, dl>>
-Next == l <= Len(TLog) /\ l' = l + 1 /\ (OnSub \/ OnUnsub \/ OnUnsubAll \/ OnEvKilled \/ OnPub \/ OnDeliv \/ OnDL \/ OnQEnd \/ OnReset \/ OnOther)
+OnOther == Ev.e \notin {"Sub", "Unsub", "UnsubAll", "EvKilled", "Pub", "Deliv", "DL", "QEnd", "AState", "Reset"} /\ UNCHANGED <<bad, subs, expect, got, ptype, pubBy, lastFrom, dead, dl>>
+Next == l <= Len(TLog) /\ l' = l + 1 /\ (OnAState \/ OnSub \/ OnUnsub \/ OnUnsubAll \/ OnEvKilled \/ OnPub \/ OnDeliv \/ OnDL \/ OnQEnd \/ OnReset \/ OnOther)
 Spec == Init /\ [][Next]_vars
 
 Ok == bad = ""
